@@ -543,7 +543,23 @@ def run_replay(world, pid, path, quiet=False):
     with open(path) as f:
         plan = json.load(f)
     want = plan.get("violation")
-    res = execute_guarded(world, plan)
+    if "sequence" in plan:
+        # a violation that needs what EARLIER plans left behind in the process (class-level or module-level state of the code
+        # under test): the replay is the sequence of plans one worker executed, regenerated from (seed, property, index)
+        sq = plan["sequence"]
+        res = None
+        for idx in sq["indices"]:
+            seed = derive_seed(sq["master"], pid, idx)
+            pl = world.gen_plan(random.Random(seed), sq["tier"], idx, sq.get("opts") or {})
+            if pl is None:
+                continue
+            pl["property"], pl["seed"], pl["index"], pl["tier"] = pid, seed, idx, sq["tier"]
+            res = execute_guarded(world, pl, (sq.get("opts") or {}).get("plan_timeout"))
+        if res is None:
+            print("NOT-REPRODUCED property=%s replay=%s (empty sequence)" % (pid, path))
+            return 0
+    else:
+        res = execute_guarded(world, plan)
     if res["status"] == "harness_error":
         print("HARNESS-ERROR during replay: %s" % res.get("detail"))
         return 2
@@ -669,9 +685,52 @@ def run_batch(modname, pid, tier, master, stages, workers, level="exploration",
             exit_code = 1
             minimised_examples.append({"replay": path, "invariant": v["invariant"], "signature": v.get("signature")})
         else:
-            out_lines.append("HARNESS-ERROR property=%s non-replayable failure %s (%s)" % (pid, path, txt.strip()[-300:]))
-            if exit_code == 0:
-                exit_code = 2
+            # not reproducible on its own in a fresh interpreter: does it need what the EARLIER plans of the same worker left
+            # behind in the process?  Replay the worker's sequence up to the failing plan (the last 2, 4, 8, ... plans of it).
+            seq_path = None
+            try:
+                idx0 = int(plan["index"])
+                si0 = idx0 // 10 ** 7
+                st0 = stages[si0]
+                o0 = dict(st0.get("opts") or {})
+                ch0 = max(1, int(o0.get("chunk", 50)))
+                base0 = si0 * 10 ** 7
+                j0 = (idx0 - base0) // ch0
+                seq_all = []
+                w_eff = max(1, min(workers, -(-int(st0["n"]) // ch0)))       # run_forked never starts more workers than jobs
+                for jj in range(j0 % w_eff, j0 + 1, w_eff):
+                    lo = base0 + jj * ch0
+                    seq_all.extend(i for i in range(lo, min(base0 + st0["n"], lo + ch0)) if i <= idx0)
+                take = 2
+                while seq_path is None and take <= 2 * len(seq_all):
+                    seq = seq_all[-take:]
+                    doc = {"property": pid, "violation": c["v"], "world": getattr(world, "__name__", modname),
+                           "sequence": {"master": int(master), "tier": tier, "indices": seq, "opts": o0}}
+                    d_ = os.path.join(OUT_DIR, "replays", pid)
+                    os.makedirs(d_, exist_ok=True)
+                    cand = os.path.join(d_, "%s_sequence_%d_last%d.json" % (c["v"]["invariant"].replace("/", "_"), idx0, len(seq)))
+                    with open(cand, "w") as f_:
+                        json.dump(doc, f_, indent=1, sort_keys=True)
+                        f_.write("\n")
+                    ok2, _ = replay_in_fresh_interpreter(pid, cand, timeout=900)
+                    if ok2:
+                        seq_path = cand
+                    else:
+                        os.remove(cand)
+                        take *= 4
+            except Exception:       # noqa: BLE001
+                seq_path = None
+            if seq_path is not None:
+                out_lines.append("VIOLATION property=%s replay=%s" % (pid, seq_path))
+                out_lines.append("  invariant=%s occurrences=%d (needs the state earlier plans leave behind in the process: the replay is a sequence of plans) detail=%s" % (
+                    c["v"]["invariant"], c["count"], c["v"]["detail"][:260]))
+                violations_reported += 1
+                exit_code = 1
+                minimised_examples.append({"replay": seq_path, "invariant": c["v"]["invariant"], "signature": c["v"].get("signature")})
+            else:
+                out_lines.append("HARNESS-ERROR property=%s non-replayable failure %s (%s)" % (pid, path, txt.strip()[-300:]))
+                if exit_code == 0:
+                    exit_code = 2
     if len(unknown) > 6:
         out_lines.append("  (+%d further violation classes not minimised)" % (len(unknown) - 6))
     for kh in known_hit.values():
